@@ -16,6 +16,9 @@ THEOREMS = [
     "other_key_empty", "other_schema_empty", "reopen_other_key", "reopen_other_schema",
     # sentence 3 (T3): GC
     "gc_keeps_referenced", "gc_removes_unreferenced", "save_keeps_next_blobs",
+    # read_blob verifies the content hash (repo 7005a14): removal branch unreachable under Inv
+    "read_blob_never_removes_under_inv", "loads_are_noops", "read_blob_rejects_foreign_bytes",
+    "read_blob_sound",
 ]
 
 
